@@ -68,6 +68,11 @@ class Check:
             fn()
         except AnchorLost as e:
             self.ob(rule, "anchor-lost", False, detail="cannot establish the clause: %s" % e)
+        except Exception as e:  # the code no longer has the shape the rule can read: fail closed, like a lost anchor
+            import traceback
+            tb = traceback.extract_tb(e.__traceback__)
+            where = "%s:%d" % (tb[-1].filename.rsplit("/", 1)[-1], tb[-1].lineno) if tb else "?"
+            self.ob(rule, "anchor-lost", False, detail="cannot establish the clause: the analysed code no longer has a shape this rule can read (%s: %s at %s)" % (type(e).__name__, e, where))
 
     # -- finishing ----------------------------------------------------------
     def finish(self):
